@@ -40,6 +40,10 @@
 
 #include "htp_private.h"
 
+#ifdef HTP_VERIF
+htp_verif_sink_t htp_verif_sink = NULL;
+#endif
+
 void htp_connp_clear_error(htp_connp_t *connp) {
     connp->last_error = NULL;
 }
